@@ -15,6 +15,10 @@ variable {φ κ : Type}
 
 /-! ### which requests never lose information before the merge -/
 
+def DInterval.isFixed : DInterval → Bool
+  | .fixed _ => true
+  | .calendar _ => false
+
 def CSrc.isF64 : CSrc φ → Bool
   | .terms _ => true
   | .hist _ _ c => c
@@ -26,14 +30,15 @@ def BSpec.safe : BSpec φ κ → Bool
   | .terms _ size minDoc _ => size.isNone && decide (minDoc ≤ 1)
   | .rare _ _ _ => false
   | .hist _ _ _ minDoc _ _ _ => decide (minDoc ≤ 1)
-  | .dhist _ _ _ minDoc _ _ _ => decide (minDoc ≤ 1)
+  | .dhist _ iv offset minDoc ext hard _ aligned =>
+    decide (minDoc ≤ 1) && (aligned || decide (offset = 0) || iv.isFixed || (ext.or hard).isNone)
   | .composite srcs _ _ => srcs.all CSrc.isF64
   | _ => true
 
 mutual
 def Agg.safe : Agg φ κ → Bool
   | .bucket b subs => b.safe && subs.safe
-  | .topHits _ _ _ => false
+  | .topHits _ fromN _ => decide (fromN = 0)
   | _ => true
 def Aggs.safe : Aggs φ κ → Bool
   | .nil => true
@@ -44,7 +49,7 @@ end
 def BSpec.minOf : BSpec φ κ → Nat
   | .terms _ _ minDoc _ => minDoc
   | .hist _ _ _ minDoc _ _ _ => minDoc
-  | .dhist _ _ _ minDoc _ _ _ => minDoc
+  | .dhist _ _ _ minDoc _ _ _ _ => minDoc
   | _ => 0
 
 theorem BSpec.minOf_le {b : BSpec φ κ} (hs : b.safe = true) : b.minOf ≤ 1 := by
@@ -55,7 +60,8 @@ theorem CSrc.ideal_of_isF64 {s : CSrc φ} (h : s.isF64 = true) : s.ideal = s := 
   | terms f => rfl
   | hist f i c => simp [CSrc.isF64] at h; subst h; rfl
 
-theorem BSpec.ideal_of_safe {b : BSpec φ κ} (hs : b.safe = true) : b.ideal = b := by
+theorem BSpec.ideal_of_safe {b : BSpec φ κ} (hs : b.safe = true)
+    (hd : ∀ f iv o m e h mi a, b ≠ .dhist f iv o m e h mi a) : b.ideal = b := by
   cases b with
   | composite srcs size after =>
     simp only [BSpec.safe, List.all_eq_true] at hs
@@ -65,7 +71,13 @@ theorem BSpec.ideal_of_safe {b : BSpec φ κ} (hs : b.safe = true) : b.ideal = b
     apply List.map_congr_left
     intro s hsrc
     exact CSrc.ideal_of_isF64 (hs s hsrc)
+  | dhist f iv o m e h mi a => exact absurd rfl (hd f iv o m e h mi a)
   | _ => rfl
+
+theorem fillFrom_congr (n1 n2 : Int → Int) (hn : ∀ x, n1 x = n2 x) (cur hi : Int) (fuel : Nat) :
+    fillFrom n1 cur hi fuel = fillFrom n2 cur hi fuel := by
+  have : n1 = n2 := funext hn
+  rw [this]
 
 variable [KOrd κ] [DecidableEq κ]
 set_option linter.unusedSectionVars false
@@ -79,7 +91,7 @@ theorem finishSeg_safe {b : BSpec φ κ} (hs : b.safe = true) (bs : Buckets κ) 
     simp only [finishSeg, keepTop, BSpec.minOf]; rfl
   | rare _ _ _ => simp [BSpec.safe] at hs
   | hist _ _ _ _ _ _ _ => simp only [finishSeg, BSpec.minOf]; rfl
-  | dhist _ _ _ _ _ _ _ => simp only [finishSeg, BSpec.minOf]; rfl
+  | dhist _ _ _ _ _ _ _ _ => simp only [finishSeg, BSpec.minOf]; rfl
   | range _ _ _ => simp only [finishSeg, BSpec.minOf]; exact (filter_keepMin_zero bs).symm
   | filter _ => simp only [finishSeg, BSpec.minOf]; exact (filter_keepMin_zero bs).symm
   | composite _ _ _ => simp only [finishSeg, BSpec.minOf]; exact (filter_keepMin_zero bs).symm
@@ -170,6 +182,43 @@ theorem rawBuckets_congr (b : BSpec φ κ) (C C' : List (Doc φ κ) → List (No
   have : C = C' := funext h
   rw [this]
 
+/-- on a safe request the reference reads the same buckets as the mechanism -/
+theorem rawBuckets_ideal {b : BSpec φ κ} (hs : b.safe = true)
+    (C : List (Doc φ κ) → List (Node κ)) (docs : List (Doc φ κ)) :
+    rawBuckets b.ideal C docs = rawBuckets b C docs := by
+  cases b with
+  | dhist f iv o m e h mi a =>
+    have hex : extraKeys (BSpec.dhist f iv o m e h mi true : BSpec φ κ) =
+        extraKeys (BSpec.dhist f iv o m e h mi a : BSpec φ κ) := by
+      simp only [BSpec.safe, Bool.and_eq_true, Bool.or_eq_true, decide_eq_true_eq] at hs
+      obtain ⟨_, hs⟩ := hs
+      simp only [extraKeys]
+      cases hb : e.or h with
+      | none => rfl
+      | some lh =>
+        obtain ⟨lo, hi⟩ := lh
+        simp only
+        congr 1
+        apply fillFrom_congr
+        intro x
+        rcases hs with ((ha | ho) | hf) | hn
+        · subst ha; rfl
+        · subst ho; simp [fillStep]
+        · cases iv with
+          | fixed step => simp [fillStep, addInterval]; omega
+          | calendar u => simp [DInterval.isFixed] at hf
+        · rw [hb] at hn; simp at hn
+    unfold rawBuckets BSpec.ideal
+    simp only [hex]
+    rfl
+  | terms _ _ _ _ => rfl
+  | rare _ _ _ => rfl
+  | range _ _ _ => rfl
+  | hist _ _ _ _ _ _ _ => rfl
+  | filter _ => rfl
+  | composite srcs size after =>
+    rw [BSpec.ideal_of_safe hs (by intros; simp)]
+
 /-! ### presentation commutes with a map on the children -/
 
 theorem termsLt_onChildren (g : List (Node κ) → List (Node κ)) (x y : Key κ × Nat × List (Node κ)) :
@@ -213,7 +262,7 @@ theorem specPost_map (b : BSpec φ κ) (g : List (Node κ) → List (Node κ)) (
   | hist _ _ _ _ _ _ _ =>
     simp only [specPost]
     rw [filter_onChildren g _ (fun _ => rfl)]
-  | dhist _ _ _ _ _ _ _ =>
+  | dhist _ _ _ _ _ _ _ _ =>
     simp only [specPost]
     rw [filter_onChildren g _ (fun _ => rfl)]
   | range _ _ _ => simp [specPost, finalPost]
